@@ -2,6 +2,7 @@ package main
 
 import (
 	"fmt"
+	"sort"
 	"strconv"
 	"strings"
 
@@ -141,5 +142,62 @@ func init() {
 			}
 		}
 		return withBuf(a[1], a[2], func(b []byte) string { return c08Val(rd.ReadValue(b)) })
+	})
+}
+
+func c08ChunkList(cs []pgdump.TOASTChunk) string {
+	parts := make([]string, len(cs))
+	for i, c := range cs {
+		d := "-"
+		if len(c.Data) > 0 {
+			d = fmt.Sprintf("%x", c.Data)
+		}
+		parts[i] = fmt.Sprintf("%d:%d:%s", c.ChunkID, c.ChunkSeq, d)
+	}
+	return cList(parts)
+}
+
+func init() {
+	register("ReadTOASTTable", func(a []string) string {
+		return withBuf(a[0], a[1], func(b []byte) string { return c08ChunkList(pgdump.ReadTOASTTable(b)) })
+	})
+	register("GetTOASTVerboseInfo", func(a []string) string {
+		return withBuf(a[1], a[2], func(b []byte) string {
+			info := pgdump.GetTOASTVerboseInfo(c08U32(a[0]), b)
+			if info == nil {
+				return "nil"
+			}
+			// map iteration order is not part of the property: keys and values are listed sorted
+			ks := make([]int, 0, len(info.ChunkDistribution))
+			for k := range info.ChunkDistribution {
+				ks = append(ks, k)
+			}
+			sort.Ints(ks)
+			dist := make([]string, len(ks))
+			for i, k := range ks {
+				dist[i] = fmt.Sprintf("%d:%d", k, info.ChunkDistribution[k])
+			}
+			vals := append([]pgdump.TOASTValueInfo(nil), info.Values...)
+			sort.Slice(vals, func(i, j int) bool { return vals[i].ChunkID < vals[j].ChunkID })
+			vs := make([]string, len(vals))
+			for i, v := range vals {
+				vs[i] = fmt.Sprintf("%d:%d:%d", v.ChunkID, v.NumChunks, v.TotalSize)
+			}
+			avg := "ok"
+			if info.AverageChunkSize != float64(info.TotalSize)/float64(info.TotalChunks) {
+				avg = "wrong"
+			}
+			return cRec(kv{"rel", fmt.Sprint(info.ToastRelID)}, kv{"chunks", fmt.Sprint(info.TotalChunks)},
+				kv{"unique", fmt.Sprint(info.UniqueValues)}, kv{"size", fmt.Sprint(info.TotalSize)},
+				kv{"max", fmt.Sprint(info.MaxChunksPerValue)}, kv{"dist", cList(dist)}, kv{"values", cList(vs)}, kv{"avg", avg})
+		})
+	})
+	// heap file -> LoadTOASTTable -> ReadValue(pointer bytes)
+	register("TableReadValue", func(a []string) string {
+		return withBuf(a[1], a[2], func(b []byte) string {
+			rd := pgdump.NewTOASTReader()
+			rd.LoadTOASTTable(c08U32(a[0]), b)
+			return c08Val(rd.ReadValue(unhex(a[3])))
+		})
 	})
 }
